@@ -288,7 +288,8 @@ class GLibEventLoop(EventLoop):
             except ExitMainLoop:
                 self._loop.quit()
             except BaseException as exc:
-                self._exc = exc
+                if self._exc is None:  # callbacks already due still run: report the first exception
+                    self._exc = exc
                 if self._loop.is_running():
                     self._loop.quit()
             return False
